@@ -332,34 +332,46 @@ func DischargeAll(obls []*Obligation, timeoutS, seed, workers int, dumpDir strin
 		}
 		out[i] = &Discharged{o, Solve(script, q, timeoutS, seed, false)}
 	}
+	deadline := time.Now().Add(time.Duration(envInt("GOV_SOLVE_SECONDS", 900)) * time.Second)
+	var solveGroup func(idx []int)
+	solveGroup = func(idx []int) {
+		if time.Now().After(deadline) {
+			for _, i := range idx {
+				out[i] = &Discharged{obls[i], &SolveResult{Status: "timeout", Output: "overall solver budget of the check exhausted"}}
+			}
+			return
+		}
+		if len(idx) == 1 {
+			single(idx[0])
+			return
+		}
+		var os_ []*Obligation
+		for _, i := range idx {
+			os_ = append(os_, obls[i])
+		}
+		script, q := batchScript(os_)
+		if len(script) <= 4<<20 {
+			r := Solve(script, q, timeoutS, seed, false)
+			if r.Status == "unsat" {
+				share := r.Ms / int64(len(idx))
+				for _, i := range idx {
+					out[i] = &Discharged{obls[i], &SolveResult{Status: "unsat", Solver: r.Solver, Ms: share, Tried: r.Tried}}
+				}
+				return
+			}
+		}
+		// bisect to locate the failing instance(s)
+		h := len(idx) / 2
+		solveGroup(idx[:h])
+		solveGroup(idx[h:])
+	}
 	for _, jb := range jobs {
 		wg.Add(1)
 		sem <- struct{}{}
 		go func(jb job) {
 			defer wg.Done()
 			defer func() { <-sem }()
-			if len(jb.idx) == 1 {
-				single(jb.idx[0])
-				return
-			}
-			var os_ []*Obligation
-			for _, i := range jb.idx {
-				os_ = append(os_, obls[i])
-			}
-			script, q := batchScript(os_)
-			if len(script) <= 4<<20 {
-				r := Solve(script, q, timeoutS, seed, false)
-				if r.Status == "unsat" {
-					share := r.Ms / int64(len(jb.idx))
-					for _, i := range jb.idx {
-						out[i] = &Discharged{obls[i], &SolveResult{Status: "unsat", Solver: r.Solver, Ms: share, Tried: r.Tried}}
-					}
-					return
-				}
-			}
-			for _, i := range jb.idx {
-				single(i)
-			}
+			solveGroup(jb.idx)
 		}(jb)
 	}
 	wg.Wait()
